@@ -54,6 +54,15 @@ def load_cfg(pid):
         return json.load(f)
 
 
+def registered_cfgs():
+    cfgs = all_cfgs()
+    ip = os.path.join(VERIF, "props", "INTEGRATED")
+    if os.path.exists(ip):
+        integrated = set(open(ip).read().split())
+        cfgs = [c for c in cfgs if c["id"] in integrated]
+    return cfgs
+
+
 def all_cfgs():
     out = []
     for p in sorted(glob.glob(os.path.join(VERIF, "props", "C*.json"))):
@@ -452,7 +461,7 @@ def run_check(pid, tier, seed, replay=None, n_override=None):
 
 def setup():
     rc_all = 0
-    groups = sorted({c["group"] for c in all_cfgs()})
+    groups = sorted({c["group"] for c in registered_cfgs()})
     for g in groups:
         log = []
         ok = build_group(g, log)
@@ -461,7 +470,7 @@ def setup():
             print(log[-1])
             rc_all = 1
     # warm the Go build cache (cgo sqlite) for every harness package
-    for c in all_cfgs():
+    for c in registered_cfgs():
         for h in c.get("harness", []):
             d = os.path.join(BUILD, "setup", c["id"])
             os.makedirs(d, exist_ok=True)
